@@ -72,12 +72,27 @@ THEOREMS_V1 = sorted(set(sum(THEOREMS_V1_FOR.values(), [])))
 for _k, _v in THEOREMS_V1_FOR.items():
     THEOREMS_FOR[_k] = THEOREMS_FOR[_k] + _v
 LEAN_MODULES = LEAN_MODULES + V1_MODULES
-THEOREMS_V2 = sorted(set(t for t in sum(THEOREMS_FOR.values(), []) if t not in THEOREMS_V1))
+# ---- zlib framing: lean/EngineModel/Gen/ZlibGen.lean (tools/tr_zlib.py), design/zlibgen.md
+ZLIB_MODULES = ["Proofs.ZlibGenEq", "Properties.C05ZlibGen"]
+THEOREMS_ZLIB_FOR = {
+    "C05": ["EngineModel.Gen.Zlib.uncompress_eq_partial"] +
+           ["EngineModel.Properties.C05ZlibGen." + t for t in
+            ["C05_gen_uncompress_eq_partial", "C05_gen_uncompress_total", "C05_gen_uncompress_no_ub"]],
+}
+THEOREMS_ZLIB = sorted(set(sum(THEOREMS_ZLIB_FOR.values(), [])))
+for _k, _v in THEOREMS_ZLIB_FOR.items():
+    THEOREMS_FOR[_k] = THEOREMS_FOR[_k] + _v
+LEAN_MODULES = LEAN_MODULES + ZLIB_MODULES
+THEOREMS_V2 = sorted(set(t for t in sum(THEOREMS_FOR.values(), []) if t not in THEOREMS_V1 and t not in THEOREMS_ZLIB))
 THEOREMS = sorted(set(sum(THEOREMS_FOR.values(), [])))
 # C04's transfer file imports Properties.C04; the other properties do not see it (statement printing context)
 MODULES_FOR = {"C04": LEAN_MODULES + ["Proofs.ImplV2GenC04"]}
 ALL_MODULES = LEAN_MODULES + ["Proofs.ImplV2GenC04"]
-TRUSTED_EXTRA = ["tools/tr_blobs_v1.py (clang-14 JSON AST of src/djinterop/engine/v1/performance_data_format.cpp -> cursor / writer "
+TRUSTED_EXTRA = ["tools/tr_zlib.py + lean/EngineModel/Impl/ZlibCxx.lean (clang-14 JSON AST of zlib_uncompress / zlib_compress in "
+                 "src/djinterop/engine/encode_decode_utils.cpp -> one state record per function, fuelled do-while loops, "
+                 "inflate / deflate as one step of the hand models' oracle types after explicit region checks; mapping in "
+                 "design/zlibgen.md)",
+                 "tools/tr_blobs_v1.py (clang-14 JSON AST of src/djinterop/engine/v1/performance_data_format.cpp -> cursor / writer "
                  "monad definitions; mapping, struct table and default-initialiser check listed in design/codegen_v1.md)",
                  "tools/tr_blobs.py (clang-14 JSON AST of src/djinterop/engine/v2/*_blob.cpp -> cursor-monad definitions; "
                  "node-kind -> combinator mapping and C++ struct <-> Lean structure table listed in design/codegen.md)"]
@@ -104,7 +119,14 @@ def _translate_v1():
     return (r.stdout.strip() or r.stderr.strip()[-300:])
 
 
-TRANSLATORS = {"v2/*_blob.cpp": _translate, "v1/performance_data_format.cpp": _translate_v1}
+def _translate_zlib():
+    r = subprocess.run([sys.executable, os.path.join(VERIF, "tools", "tr_zlib.py")],
+                       stdout=subprocess.PIPE, stderr=subprocess.PIPE, text=True)
+    return (r.stdout.strip() or r.stderr.strip()[-300:])
+
+
+TRANSLATORS = {"v2/*_blob.cpp": _translate, "v1/performance_data_format.cpp": _translate_v1,
+               "encode_decode_utils.cpp (zlib_uncompress / zlib_compress)": _translate_zlib}
 
 
 # ---------------------------------------------------------------------------------------------
@@ -219,5 +241,7 @@ if __name__ == "__main__" and sys.argv[1:2] == ["lock"]:
         raise SystemExit("lake build failed:\n" + lb["log"])
     l = audit.write_lock("ImplV2Gen", THEOREMS_V2, imports=tuple(ALL_MODULES))
     print("locked %d statements (lean/Properties/locks/ImplV2Gen.json)" % len(l))
+    l = audit.write_lock("ZlibGen", THEOREMS_ZLIB, imports=tuple(ZLIB_MODULES))
+    print("locked %d statements (lean/Properties/locks/ZlibGen.json)" % len(l))
     l = audit.write_lock("ImplV1Gen", THEOREMS_V1, imports=tuple(ALL_MODULES))
     print("locked %d statements (lean/Properties/locks/ImplV1Gen.json)" % len(l))
